@@ -258,12 +258,17 @@ pub fn check_unsupported(header_value: &str) -> Vec<(String, String)> {
 }
 
 pub fn schedules(n: usize, tier: Tier) -> Vec<Vec<usize>> {
+    schedules_for(n, tier, false)
+}
+
+/// `big_body`: the plaintext is large, every run is expensive: use the lattice form whatever the compressed length
+pub fn schedules_for(n: usize, tier: Tier, big_body: bool) -> Vec<Vec<usize>> {
     let mut v: Vec<Vec<usize>> = vec![vec![n]];
     if n == 0 {
         v.push(vec![0, 0]);
         return v;
     }
-    if n > 1500 {
+    if n > 1500 || (big_body && n > 64) {
         // long streams (the big body, or stored / level-0 producers): a lattice of cuts and strides
         let step = (n / tier.pick(12, 48)).max(1);
         for p in (1..n).step_by(step) {
@@ -357,7 +362,7 @@ pub fn run(tier: Tier) -> i32 {
         if want != body.as_bytes() {
             filtered.fetch_add(1, Ordering::Relaxed);
         }
-        for sched in schedules(stream.len(), tier) {
+        for sched in schedules_for(stream.len(), tier, body.len() > 30000) {
             let case = Case { body: body.clone(), enc: enc.clone(), header_value: hv.clone(), filters: filters.clone(), schedule: sched };
             runs.fetch_add(1, Ordering::Relaxed);
             let res = match crate::common::guarded(|| check_schedule(&case, &stream, &want)) {
